@@ -51,6 +51,10 @@ func (x *Exec) render(q *Query) string {
 		if strings.HasPrefix(srt, "FUN ") {
 			continue // declared in the prelude
 		}
+		if strings.HasPrefix(srt, "DFUN ") {
+			fmt.Fprintf(&b, "(declare-fun %s %s)\n", n, srt[5:])
+			continue
+		}
 		fmt.Fprintf(&b, "(declare-const %s %s)\n", n, srt)
 	}
 	return b.String() + body.String() + "(check-sat)\n"
@@ -81,6 +85,15 @@ var solvers = []solverDef{
 	}},
 	{"z3-4.8.12", func(f string, sec, seed int) []string {
 		return []string{"z3", fmt.Sprintf("-T:%d", sec), fmt.Sprintf("smt.random_seed=%d", seed), fmt.Sprintf("sat.random_seed=%d", seed), f}
+	}},
+	// quantifier instantiation is sensitive to the random seed: before an obligation is given
+	// up as undecided, z3 5.1.0 is asked again with other seeds (an unsat answer is an unsat
+	// answer whatever the seed)
+	{"z3-5.1.0", func(f string, sec, seed int) []string {
+		return []string{"z3-new", fmt.Sprintf("-T:%d", sec), fmt.Sprintf("smt.random_seed=%d", seed+17), fmt.Sprintf("sat.random_seed=%d", seed+17), f}
+	}},
+	{"z3-5.1.0", func(f string, sec, seed int) []string {
+		return []string{"z3-new", fmt.Sprintf("-T:%d", sec), fmt.Sprintf("smt.random_seed=%d", seed+43), fmt.Sprintf("sat.random_seed=%d", seed+43), "smt.arith.solver=2", f}
 	}},
 }
 
@@ -187,7 +200,7 @@ func (d *Discharger) solve(text string, wantModel bool) Result {
 		_ = os.MkdirAll(filepath.Dir(cfile), 0o755)
 		_ = os.WriteFile(cfile, []byte(res.Status+"\n"+res.Solver+"\n"+res.Output), 0o644)
 	}
-	if res.Status == "unsat" || (res.Status == "sat" && !wantModel) {
+	if (res.Status == "unsat" || (res.Status == "sat" && !wantModel)) && os.Getenv("VERIF_KEEP") == "" {
 		_ = os.Remove(file)
 	}
 	return res
